@@ -28,6 +28,8 @@ OPASSIGN = ["+=", "-=", "*=", "**=", "/=", "\\=", "%=", "<<=", ">>=", "&=", "|="
 STRS = ['"s"', '""', '"' + "a" * 228 + "é" + "b" * 4 + '"', '"' + "a" * 229 + "é" + '"', '"' + "é" * 120 + '"', '"// not a comment"',
         '"/* x"', '"%d {} \\n"', '"' + "x" * 700 + '"']
 IDS = ["a", "b", "c", "x", "i", "n", "T", "f", "in", "out", "main", "s_0", "a_1"]
+# names the analysis passes key on (Circomlib), with any number of arguments
+CALLEES = ["Num2Bits", "Bits2Num", "LessThan", "Num2Bits_strict", "Sign", "AliasCheck", "Poseidon", "f", "T", "n", "IsZero", "main"]
 CURVES = ["BN254", "BLS12_381", "GOLDILOCKS"]
 LEVELS = ["info", "warning", "error"]
 OPTS = [{"curve": c, "level": l, "verbose": v, "sarif": s} for c in CURVES for l in LEVELS for v in (False, True) for s in (False, True)]
@@ -40,6 +42,8 @@ def render_tokens(toks, k):
     for t in toks:
         if t == "ID":
             out.append(IDS[rnd.randrange(len(IDS) if rnd.random() < 0.3 else 6)])
+        elif t == "CALLEE":
+            out.append(CALLEES[rnd.randrange(len(CALLEES))])
         elif t == "NUM":
             if prev_bop in ("/", "\\", "%") and rnd.random() < 0.5:
                 out.append("0")
@@ -110,16 +114,25 @@ def run(tier):
     open(c, "w").write('SPECIFICATION Spec\nCONSTANTS\n  MaxSteps = %d\n  MaxLen = 40\n  Start = "<Def>"\nINVARIANT Emit\nCHECK_DEADLOCK FALSE\n' % steps)
     gen = run_tlc("Grammar", c, "c01", workers=8 if tier == "quick" else 14, timeout=3000)
     nA = 0
-    for k, case in enumerate(read_ndjson(gen.cases_path)):
+    for k, case in enumerate(sorted(read_ndjson(gen.cases_path), key=lambda c_: json.dumps(c_["toks"]))):
         for var in range(2):
             inputs.append(("grammar", render_tokens(case["toks"], k * 7 + var + vlib.seed()).encode()))
             nA += 1
     open(c, "w").write('SPECIFICATION Spec\nCONSTANTS\n  MaxSteps = 45\n  MaxLen = 160\n  Start = "<Def>"\nINVARIANT Emit\nCHECK_DEADLOCK FALSE\n')
     sim = run_tlc("Grammar", c, "c01", workers=4, simulate=600 if tier == "quick" else 6000, depth=70, timeout=600, cases_suffix="-sim")
-    simcases = list(read_ndjson(sim.cases_path))
+    simcases = sorted(read_ndjson(sim.cases_path), key=lambda c_: json.dumps(c_["toks"]))
     rnd.shuffle(simcases)
     for k, case in enumerate(simcases[:2000 if tier == "quick" else 30000]):
         inputs.append(("grammar-deep", render_tokens(case["toks"], k + 13 * vlib.seed()).encode()))
+    # ---- A2: every special callee name x 0..3 arguments x three ways of writing the instantiation (the analysis passes key on
+    #          Circomlib names and index into the argument list)
+    for cal in CALLEES:
+        for nargs in range(4):
+            args = ", ".join(["8", "n", "254", "a"][:nargs])
+            for form in ("component c = %s(%s);\n  c.in <== a;", "signal s <== %s(%s)(a);", "component c[2];\n  c[0] = %s(%s);\n  c[0].in[0] <== a;"):
+                body = form % (cal, args)
+                for curve in CURVES:
+                  inputs.append(("callee-matrix:" + curve, ("pragma circom 2.1.0;\ntemplate W(n) {\n  signal input a;\n  signal output o;\n  %s\n  o <== a;\n}\n" % body).encode()))
     # ---- B: corpora
     corpus_texts = []
     for d in ("stress", "base"):
@@ -151,18 +164,36 @@ def run(tier):
             data = mutate(rnd.choice(small), rnd)
         inputs.append(("mutation", data))
     inputs = [(o, d) for (o, d) in inputs if len(d) <= 4096 or o.startswith("corpus")]
+    # directories as input (handled on a best-effort basis by the tool): nested directories, symlink loops
+    dir_jobs = [("dir:plain", [{"path": "d/a.circom", "text": corpus_texts[0]}, {"path": "d/sub/b.circom", "text": corpus_texts[1]}], "d"),
+                ("dir:symlink-loop", [{"path": "d/a.circom", "text": corpus_texts[0]}, {"path": "d/l1", "symlink": "."}, {"path": "d/l2", "symlink": "."}], "d"),
+                ("dir:symlink-to-parent", [{"path": "d/e/a.circom", "text": corpus_texts[0]}, {"path": "d/e/up", "symlink": ".."}, {"path": "d/e/up2", "symlink": "../.."}], "d"),
+                ("dir:empty", [{"path": "d/readme.txt", "text": "x"}], "d"),
+                ("dir:dangling", [{"path": "d/x.circom", "symlink": "gone.circom"}, {"path": "d/a.circom", "text": corpus_texts[0]}], "d")]
     # ---- run
     def one(i):
         origin, data = inputs[i]
         root = os.path.join(wd, "bin", "p%d" % i)
         files = [{"path": "in.circom", "named": True, "bytes": list(data)}]
         o = OPTS[i % len(OPTS)]
+        if origin.startswith("callee-matrix:"):
+            o = dict(o, curve=origin.split(":")[1])
         r = proj.run_binary(files, root, {"level": o["level"], "verbose": o["verbose"], "sarif": o["sarif"]},
                             extra_args=["--curve", o["curve"]], timeout=60)
         import shutil
         shutil.rmtree(root, ignore_errors=True)
         return r
     runs = proj.par_runs(range(len(inputs)), one, workers=12)
+    for (origin, files, arg) in dir_jobs:
+        root = os.path.join(wd, "bin", "dir")
+        cli.materialise([dict(f, named=False) for f in files], root)
+        r = cli.run(["--level", "info", os.path.join(root, arg)], timeout=60)
+        r["events"] = cli.parse_stdout(r["out"], root + "/")
+        r["argv"] = ["--level", "info", arg]
+        r["stderr"] = r["err"][-2000:]
+        r["stdout"] = r["out"]
+        inputs.append((origin, json.dumps(files).encode()))
+        runs.append(r)
     records, meta = [], []
     for i, r in enumerate(runs):
         rec = to_record(r, [], [], ["in.circom"])
